@@ -27,48 +27,50 @@ const modPath = "github.com/textwire/textwire/v2"
 // Model is the type-checked, SSA-lowered program plus the facts extracted
 // from it. It is rebuilt from /repo's working tree on every run.
 type Model struct {
-	resRange       map[any][2]bool // resultRange memo
-	lookupTableAt  map[*ssa.Parameter]ssa.Value
-	ifCaseRes      *ifCaseResult
-	errNodes       map[string]bool
-	eachCaseRes    *loopCaseResult
-	forCaseRes     *loopCaseResult
-	newTokenUnread bool // newToken ends a token that has read nothing on the current character
-	errPassStrict  bool // R-EVALERR for C13: an error coming out of Eval is handed up as the same object, not re-created
-	tokposGeom     *tokposGeom
-	lexModeDone    bool
-	lexMode        *lexModePred
-	lexFresh       *iStruct
-	lexModeWhy     string
-	opCaseRes      *opCaseResult
-	evalWrappers   map[*ssa.Function]int
-	lenSums        map[*ssa.Function]*lenSum
-	lenSumBusy     map[*ssa.Function]bool
-	globalTabs     map[string]map[string]any
-	expectLikes    map[*ssa.Function]*expectLike
-	Repo           string
-	Config         string // "default", "tags=verif", "GOARCH=386"
-	Fset           *token.FileSet
-	Pkgs           []*packages.Package          // module packages (non-test), sorted by path
-	ByPath         map[string]*packages.Package // import path -> package
-	Prog           *ssa.Program
-	SSA            map[string]*ssa.Package // import path -> ssa package
-	CG             *callgraph.Graph
-	AllFns         map[*ssa.Function]bool
-	ModFns         []*ssa.Function // every function (incl. anonymous) whose package is in the module
-	nEdges         int
-	fnDecl         map[*ssa.Function]*ast.FuncDecl
-	declFn         map[*ast.FuncDecl]*ssa.Function
-	reachMu        map[string]map[*ssa.Function][]*ssa.Function // cache: root set key -> fn -> one call chain
-	ctxs           map[*ssa.Function]*FnCtx
-	facts          *RepoFacts
-	inv            *nonnegInv
-	nilable        *nilableInfo
-	nilRet         map[*ssa.Function]string
-	effects        *effectAnalysis
-	idxSum         map[*ssa.Function]int
-	invDone        bool
-	fwTrans        map[*ssa.Function]map[fieldID]bool
+	ternDone, ternDecided bool
+	ternBad, ternWhy      string
+	resRange              map[any][2]bool // resultRange memo
+	lookupTableAt         map[*ssa.Parameter]ssa.Value
+	ifCaseRes             *ifCaseResult
+	errNodes              map[string]bool
+	eachCaseRes           *loopCaseResult
+	forCaseRes            *loopCaseResult
+	newTokenUnread        bool // newToken ends a token that has read nothing on the current character
+	errPassStrict         bool // R-EVALERR for C13: an error coming out of Eval is handed up as the same object, not re-created
+	tokposGeom            *tokposGeom
+	lexModeDone           bool
+	lexMode               *lexModePred
+	lexFresh              *iStruct
+	lexModeWhy            string
+	opCaseRes             *opCaseResult
+	evalWrappers          map[*ssa.Function]int
+	lenSums               map[*ssa.Function]*lenSum
+	lenSumBusy            map[*ssa.Function]bool
+	globalTabs            map[string]map[string]any
+	expectLikes           map[*ssa.Function]*expectLike
+	Repo                  string
+	Config                string // "default", "tags=verif", "GOARCH=386"
+	Fset                  *token.FileSet
+	Pkgs                  []*packages.Package          // module packages (non-test), sorted by path
+	ByPath                map[string]*packages.Package // import path -> package
+	Prog                  *ssa.Program
+	SSA                   map[string]*ssa.Package // import path -> ssa package
+	CG                    *callgraph.Graph
+	AllFns                map[*ssa.Function]bool
+	ModFns                []*ssa.Function // every function (incl. anonymous) whose package is in the module
+	nEdges                int
+	fnDecl                map[*ssa.Function]*ast.FuncDecl
+	declFn                map[*ast.FuncDecl]*ssa.Function
+	reachMu               map[string]map[*ssa.Function][]*ssa.Function // cache: root set key -> fn -> one call chain
+	ctxs                  map[*ssa.Function]*FnCtx
+	facts                 *RepoFacts
+	inv                   *nonnegInv
+	nilable               *nilableInfo
+	nilRet                map[*ssa.Function]string
+	effects               *effectAnalysis
+	idxSum                map[*ssa.Function]int
+	invDone               bool
+	fwTrans               map[*ssa.Function]map[fieldID]bool
 }
 
 // LoadModel type-checks every package of the module under repo and lowers it.
